@@ -77,6 +77,7 @@ static void run(const char* mn, int argc)
   MakeCode_AVR();
 }
 #define EXPECT1(w, what) do { CHECK(diag_errs == 0, what ": accepted"); CHECK(CodeLen == 1 && WAsmCode[0] == (Word)(w), what ": instruction word"); } while (0)
+#define EXPECT2(w, w2, what) do { CHECK(diag_errs == 0, what ": accepted"); CHECK(CodeLen == 2 && WAsmCode[0] == (Word)(w) && WAsmCode[1] == (Word)(w2), what ": two instruction words"); } while (0)
 #define REJECT(what) do { CHECK(diag_errs > 0, what ": rejected with an error"); CHECK(CodeLen == 0, what ": nothing emitted"); } while (0)
 
 void harness(void)
@@ -179,7 +180,7 @@ void harness(void)
     else EXPECT1((f ? 0x9488 : 0x9408) | (in_v1 << 4), "BSET/BCLR s");
   }
 #elif defined(G_IO)
-  ASSUME(in_form < 6);
+  ASSUME(in_form < 10);
   switch (in_form)
   {
     case 0: regtxt(a1, d); run("IN", 2);
@@ -195,9 +196,18 @@ void harness(void)
     case 4: regtxt(a1, d); regtxt(a2, r); run("MOVW", 2);
       if (d > 31 || r > 31 || (d & 1) || (r & 1)) REJECT("MOVW takes even registers");
       else EXPECT1(0x0100 | ((d / 2) << 4) | (r / 2), "MOVW Rd,Rr: dddd rrrr (register pairs)"); break;
-    default: regtxt(a1, d); regtxt(a2, r); run("MULS", 2);
+    case 5: regtxt(a1, d); regtxt(a2, r); run("MULS", 2);
       if (d < 16 || d > 31 || r < 16 || r > 31) REJECT("MULS takes R16..R31");
       else EXPECT1(0x0200 | ((d & 15) << 4) | (r & 15), "MULS Rd,Rr: dddd rrrr"); break;
+    case 6: regtxt(a1, d); run("LDS", 2);
+      if (d > 31) REJECT("register number above 31"); else if (in_v2 < 0 || in_v2 > 65535) REJECT("data address outside 16 bits");
+      else EXPECT2(0x9000 | (d << 4), in_v2, "LDS Rd,k: 1001 000d dddd 0000 + 16-bit address"); break;
+    case 7: regtxt(a2, r); run("STS", 2);
+      if (r > 31) REJECT("register number above 31"); else if (in_v1 < 0 || in_v1 > 65535) REJECT("data address outside 16 bits");
+      else EXPECT2(0x9200 | (r << 4), in_v1, "STS k,Rr: 1001 001r rrrr 0000 + 16-bit address"); break;
+    default: run(in_form == 8 ? "JMP" : "CALL", 1);
+      if (in_v1 < 0 || in_v1 > 65535) { REJECT("target outside the program memory"); WITNESS("long jump rejected"); }
+      else EXPECT2(in_form == 8 ? 0x940C : 0x940E, in_v1, "JMP/CALL k: 1001 010k kkkk 11xk + low 16 address bits (k < 64K words)"); break;
   }
 #endif
   WITNESS("end");
